@@ -339,22 +339,24 @@ def check_decoder(env, rep, rule, spec):
         ok2 = len(none) == 1 and none[0].startswith("u16be") and "u8" in none[0] and "9" in none[0]
         rep.check(rule, "decoder:property", ok1 and ok2, "property = u16be name length, name bytes, value; terminator = length 0 then byte 9",
                   "object property grammar is %s" % got, pp.span, detail={"extracted": got})
-    # ---- strict array: the loop runs over exactly the declared count
     if 10 in yields:
-        from . import loops
-        b = yields[10]
-        good = False
-        why = "no loop over the declared count"
-        it = env.ctx.interp(b.key)
-        for head in b.loops:
-            ok, w, end_sv = loops.iterator_driven(env, b, head)
-            if ok and end_sv is not None:
-                e = strip_casts(end_sv)
-                good = isinstance(e, tuple) and e[0] == "proj" and isinstance(e[1], tuple) and e[1][0] == "call" and "read_u32" in (e[1][2] or "")
-                why = "loop bound is %s" % stable(end_sv)
-        rep.check(rule, "decoder:strict-array-count", good, "the element loop runs up to the declared u32 count (%s)" % why,
-                  "the strict-array element loop is not bounded by the declared count itself: %s" % why, b.span)
+        strict_array_count(env, rep, rule, yields[10])
     return yields
+
+
+def strict_array_count(env, rep, rule, b):
+    """the element loop of the strict-array parser runs up to exactly the declared u32 count"""
+    from . import loops
+    good = False
+    why = "no loop over the declared count"
+    for head in b.loops:
+        ok, w, end_sv = loops.iterator_driven(env, b, head)
+        if ok and end_sv is not None:
+            e = strip_casts(end_sv)
+            good = isinstance(e, tuple) and e[0] == "proj" and isinstance(e[1], tuple) and e[1][0] == "call" and "read_u32" in (e[1][2] or "")
+            why = "loop bound is %s" % stable(end_sv)
+    rep.check(rule, "decoder:strict-array-count", good, "the element loop runs up to the declared u32 count (%s)" % why,
+              "the strict-array element loop is not bounded by the declared count itself: %s (the encoder writes the full element count, so elements beyond the bound would be decoded as separate values)" % why, b.span)
 
 
 def check_error_discipline(env, rep, rule):
